@@ -69,7 +69,14 @@ func TextLoader(r Reader, name string, stream io.Reader) (Loader, error) {
 		}()
 		var lval *LVal
 		for _, expr := range exprs {
-			lval = env.Eval(expr.Copy())
+			// Each run evaluates its own copy of the cached tree.  Copy clears
+			// the seal, and the copy-on-write of the in-place builtins
+			// (stable-sort, append 'vector, slice) keys off the seal, so the
+			// copy is sealed like every tree a reader hands to the evaluator:
+			// a quoted literal in the loaded code is not rewritten in place.
+			form := expr.Copy()
+			form.SealAST()
+			lval = env.Eval(form)
 			if lval.Type == LError {
 				return lval
 			}
